@@ -15,8 +15,8 @@ pub fn def() -> PropDef {
         run,
         shrink: Shrink::Bytes,
         render: render_bytes,
-        rule: "every header the real parser accepts in U2-ctl, U2-len (24 valid control pairs x lengths: stride 7 quick, every length thorough; all lengths near boundaries), U2-addr, U2-sig, U2-byte and the embedded TLV sections (every string over a 5-byte alphabet up to n, structured sequences with every truncation) is rebuilt through the real Builder four ways (raw views; tlvs() as a section; decoded items when well-formed; decoded address value) and compared with the original bytes; non-trivial = accepted; distinct = hash of (control bytes, length, first 64 payload bytes)",
-        assumptions: &["quick tier: lengths between boundaries are covered with a stride of 7 because each rebuild copies the payload; thorough tier: every length 0..=65535"],
+        rule: "every header the real parser accepts in U2-ctl, U2-len (24 valid control pairs x every length 0..=65535), U2-addr, U2-sig, U2-byte and the embedded TLV sections (every string over a 5-byte alphabet up to n, structured sequences with every truncation) is rebuilt through the real Builder four ways (raw views; tlvs() as a section; decoded items when well-formed; decoded address value) and compared with the original bytes; non-trivial = accepted; distinct = hash of (control bytes, length, first 64 payload bytes)",
+        assumptions: &["every declared length 0..=65535 is rebuilt for all 24 control pairs in both tiers"],
     }
 }
 
@@ -124,7 +124,7 @@ pub fn judge(input: &[u8], acc: &mut Acc) {
 
 pub fn run(run: &Run) {
     run.explore(&u2::CtlUniverse);
-    run.explore(&u2::LenUniverse { presents: u2::Presents::AcceptedStride(run.tier.pick(7, 1)), name: "U2-len/accepted-stride" });
+    run.explore(&u2::LenUniverse { presents: u2::Presents::AcceptedStride(1), name: "U2-len/accepted-stride" });
     run.explore(&u2::sig_universe());
     run.explore(&u2::addr_universe());
     run.explore(&u2::anybyte_universe());
